@@ -51,7 +51,7 @@ def worker(k):
         else:
             t0 = time.time()
             try:
-                prc, out = sh(["./check", pid, "--tier", "quick"], cwd=ver, env=env, timeout=3000)
+                prc, out = sh(["./check", meta.get("check_with", pid), "--tier", "quick"], cwd=ver, env=env, timeout=3000)
             except subprocess.TimeoutExpired:
                 prc, out = 124, ""
             sh("git checkout -- . && git clean -fdq", cwd=repo)
@@ -64,7 +64,7 @@ def worker(k):
                     kinds.append(rj.get("kind", "?") + (": " + str(rj.get("signature")) if rj.get("signature") else "") + (" (no-failing-input-found)" if "no-failing-input-found" in l else ""))
                 except Exception:
                     kinds.append("?")
-            r = {"property": pid, "result": "DETECTED" if vio and prc == 1 else "MISSED", "violations": kinds[:4], "seconds": round(time.time() - t0, 1),
+            r = {"property": pid, "result": ("DETECTED" + (" by " + meta["check_with"] + " (" + meta.get("check_with_why", "") + ")" if meta.get("check_with") else "")) if vio and prc == 1 else "MISSED", "violations": kinds[:4], "seconds": round(time.time() - t0, 1),
                  "summary": meta.get("summary", "")[:220], "needs": meta.get("needs_to_manifest", "")[:200]}
         with lock:
             res[name] = r
@@ -89,4 +89,4 @@ with open(os.path.join(V, "design", "seed_matrix.md"), "w") as f:
     for k in sorted(prev):
         r = prev[k]
         f.write("| %s | %s | %s | %s | %s |\n" % (k, r["property"], r["result"], "; ".join(r.get("violations", [])).replace("|", "/"), r.get("summary", "").replace("|", "/").replace("\n", " ")))
-print("written design/seed_matrix.md;", sum(1 for r in res.values() if r["result"] == "DETECTED"), "detected of", len(res))
+print("written design/seed_matrix.md;", sum(1 for r in res.values() if r["result"].startswith("DETECTED")), "detected of", len(res))
